@@ -586,6 +586,29 @@ def s_checked(op):
     return h
 
 
+def s_arith(op):
+    """saturating_* / wrapping_* on unsigned integers"""
+    def h(ex, p, callee, argv, lhs):
+        a, b = ex.as_bv(argv[0]), ex.as_bv(argv[1])
+        w = a[2]
+        x, y = a[1], b[1]
+        mx = bvconst((1 << w) - 1, w)
+        if op == "saturating_add":
+            r = "(ite (bvult (bvadd %s %s) %s) %s (bvadd %s %s))" % (x, y, x, mx, x, y)
+        elif op == "saturating_sub":
+            r = "(ite (bvult %s %s) %s (bvsub %s %s))" % (x, y, bvconst(0, w), x, y)
+        elif op == "saturating_mul":
+            r = "(ite (= ((_ extract %d %d) (bvmul ((_ zero_extend %d) %s) ((_ zero_extend %d) %s))) %s) (bvmul %s %s) %s)" % (2 * w - 1, w, w, x, w, y, bvconst(0, w), x, y, mx)
+        elif op == "wrapping_add":
+            r = "(bvadd %s %s)" % (x, y)
+        elif op == "wrapping_sub":
+            r = "(bvsub %s %s)" % (x, y)
+        else:
+            r = "(bvmul %s %s)" % (x, y)
+        ex.set_ret(p, lhs, ("bv", r, w))
+    return h
+
+
 def s_unwrap(ex, p, callee, argv, lhs):
     o = argv[0]
     if o[0] != "agg":
@@ -743,6 +766,12 @@ SUMMARIES = [
     (r"<impl usize>::checked_mul$", s_checked("mul")),
     (r"<impl usize>::checked_add$", s_checked("add")),
     (r"<impl usize>::checked_sub$", s_checked("sub")),
+    (r"<impl usize>::saturating_add$", s_arith("saturating_add")),
+    (r"<impl usize>::saturating_sub$", s_arith("saturating_sub")),
+    (r"<impl usize>::saturating_mul$", s_arith("saturating_mul")),
+    (r"<impl usize>::wrapping_add$", s_arith("wrapping_add")),
+    (r"<impl usize>::wrapping_sub$", s_arith("wrapping_sub")),
+    (r"<impl usize>::wrapping_mul$", s_arith("wrapping_mul")),
     (r"Option::<.*>::unwrap$|Option::<.*>::expect$", s_unwrap),
     (r"RangeBounds<usize>>::start_bound$", s_bound("start_bound")),
     (r"RangeBounds<usize>>::end_bound$", s_bound("end_bound")),
